@@ -18,7 +18,7 @@ Mirrors, stage by stage,
   `Section.__init__` (section.py 40-71);
 * `SurveyElement.xml_bindings` (survey_element.py 547-583: trigger drops `calculate`,
   `BINDING_CONVERSIONS` for `CONVERTIBLE_BIND_ATTRIBUTES`, message redirection to itext) and
-  `utils.node` (utils.py 107-131: the kwargs named `tag` / `toParseString` never become attributes);
+  `setAttribute` per entry (a `nodeset` entry is rejected);
 * `Survey.insert_xpaths` for `${name}` where `name` is a question that is a direct child of the
   survey (always the absolute path with a space on either side, survey.py 1177-1195).
 
@@ -189,17 +189,15 @@ deriving DecidableEq, Repr, Inhabited
 
 abbrev BindDict := List (Str × BVal)
 
-/-- union of two language dicts (`merge_dicts` on dicts whose leaves do not collide) -/
+/-- union of two language dicts (`merge_dicts` on dicts; two plain values for one language: the
+    later one wins, in the earlier one's position — sheet_headers.py 41-46) -/
 def mergeLang (a : List (Str × Str)) : List (Str × Str) → Option (List (Str × Str))
   | [] => some a
-  | (l, v) :: rest =>
-    match lookup l a with
-    | some _ => none                 -- leaf/leaf collision: unreachable after the duplicate-header check
-    | none => mergeLang (a ++ [(l, v)]) rest
+  | (l, v) :: rest => mergeLang (dictSet a l v) rest
 
 /-- `merge_dicts(a, b, default_language)` on bind values (sheet_headers.py 26-59) -/
 def mergeVal (dl : Str) : BVal → BVal → Option BVal
-  | .s _, .s _ => none
+  | .s _, .s b => some (.s b)
   | .s a, .d b => if (lookup dl b).isSome then some (.d b) else (mergeLang [(dl, a)] b).map .d
   | .d a, .s b => if (lookup dl a).isSome then some (.d a) else (mergeLang a [(dl, b)]).map .d
   | .d a, .d b => (mergeLang a b).map .d
@@ -329,6 +327,111 @@ def dealiasType (t : Str) : Str :=
   | some t' => t'
   | none => t
 
+/-! ### `parameters` (validators/pyxform/parameters_generic.py; xls2json.py 172-210, 1229-1377) -/
+
+/-- `raw.split(";")`, else `split(",")`, else `split()` -/
+def splitParts (p : Str) : List Str :=
+  let a := splitOnChar ';' p
+  if a.length ≠ 1 then a else
+  let b := splitOnChar ',' p
+  if b.length ≠ 1 then b else splitWs p
+
+def caseSensitiveParams : List Str := ["label".toList, "value".toList]
+
+/-- `parameters_generic.parse`: `key=value` parts into an ordered dict (later duplicates win);
+    `none` = "Expecting parameters to be in the form of …" -/
+def parseParts : List Str → List (Str × Str) → Option (List (Str × Str))
+  | [], acc => some acc
+  | part :: rest, acc =>
+    match splitOnChar '=' part with
+    | k :: v :: _ =>
+      let key := strip (lowerAscii k)
+      let val := if caseSensitiveParams.contains key then strip v else strip (lowerAscii v)
+      parseParts rest (dictSet acc key val)
+    | _ => none
+
+def parseParams (p : Str) : Option (List (Str × Str)) := parseParts (splitParts p) []
+
+def isDigits (s : Str) : Bool := !s.isEmpty && s.all Char.isDigit
+
+def unsigned (s : Str) : Str :=
+  match s with
+  | '+' :: r => r
+  | '-' :: r => r
+  | _ => s
+
+/-- literals `int()` accepts that the model answers for: optional sign, digits -/
+def isIntLit (s : Str) : Bool := isDigits (unsigned s)
+
+/-- literals `float()` accepts that the model answers for (`12`, `1.5`, `.5`, `5.`, signed):
+    (is non-zero, is written with a `.`) -/
+def floatLit (s : Str) : Option (Bool × Bool) :=
+  match splitOnChar '.' (unsigned s) with
+  | [a] => if isDigits a then some (a.any (· ≠ '0'), false) else none
+  | [a, b] =>
+    if (a.isEmpty || isDigits a) && (b.isEmpty || isDigits b) && !(a.isEmpty && b.isEmpty)
+    then some ((a ++ b).any (· ≠ '0'), true) else none
+  | _ => none
+
+def allowedOnly (ps : List (Str × Str)) (allowed : List String) : Bool :=
+  ps.all fun kv => allowed.any fun a => a.toList = kv.1
+
+def rangeDefaults : List (Str × Str) :=
+  [("start".toList, "1".toList), ("end".toList, "10".toList), ("step".toList, "1".toList)]
+
+/-- `process_range_question_type`: written parameters first, missing ones appended with defaults -/
+def rangeWithDefaults (ps : List (Str × Str)) : List (Str × Str) :=
+  ps ++ rangeDefaults.filter fun d => (lookup d.1 ps).isNone
+
+/-- `float(x) and "." in str(x)` for some parameter (xls2json.py 193-197) -/
+def rangeIsDecimal (vals : List Str) : Bool := vals.any fun v => floatLit v == some (true, true)
+
+def audioQualities : List String := ["voice-only", "low", "normal", "external"]
+
+/-- bind attributes a row's `parameters` add to its bind dict, for the type cell `t`;
+    `.error` = rejected by pyxform or outside the fragment -/
+def paramBind (t : Str) (ps : List (Str × Str)) : Except String (List (Str × BVal)) :=
+  let get (k : String) : Option Str := lookup k.toList ps
+  if t = "range".toList then
+    if !allowedOnly ps ["start", "end", "step"] then .error "range parameter name"
+    else
+      let vals := (rangeWithDefaults ps).map (·.2)
+      if !(vals.all fun v => (floatLit v).isSome) then .error "range parameter value"
+      else if rangeIsDecimal vals then .ok [("type".toList, .s "decimal".toList)] else .ok []
+  else if t = "photo".toList then
+    if !allowedOnly ps ["max-pixels"] then .error "photo parameter (app / unknown)"
+    else match get "max-pixels" with
+      | some v => if isIntLit v then .ok [("orx:max-pixels".toList, .s v)] else .error "max-pixels value"
+      | none => .ok []
+  else if t = "audio".toList then
+    if !allowedOnly ps ["quality"] then .error "audio parameter name"
+    else match get "quality" with
+      | some v => if audioQualities.any (·.toList = v) then .ok [("odk:quality".toList, .s v)] else .error "quality value"
+      | none => .ok []
+  else if t = "background-audio".toList then
+    if !allowedOnly ps ["quality"] then .error "audio parameter name"
+    else match get "quality" with
+      | some v => if (audioQualities.take 3).any (·.toList = v) then .ok [] else .error "quality value"
+      | none => .ok []
+  else if t = "geopoint".toList || t = "geoshape".toList || t = "geotrace".toList then
+    let allowed := if t = "geopoint".toList then ["allow-mock-accuracy", "capture-accuracy", "warning-accuracy"]
+                   else ["allow-mock-accuracy"]
+    if !allowedOnly ps allowed then .error "geo parameter name"
+    else if !((get "capture-accuracy").all fun v => (floatLit v).isSome) then .error "capture-accuracy value"
+    else if !((get "warning-accuracy").all fun v => (floatLit v).isSome) then .error "warning-accuracy value"
+    else match get "allow-mock-accuracy" with
+      | some v => if v = "true".toList || v = "false".toList
+                  then .ok [("odk:allow-mock-accuracy".toList, .s v)] else .error "allow-mock-accuracy value"
+      | none => .ok []
+  else if t = "text".toList then
+    if !allowedOnly ps ["rows"] then .error "text parameter name"
+    else if !((get "rows").all isIntLit) then .error "rows value" else .ok []
+  else .ok []
+
+/-- the row's bind dict after `new_dict["bind"].update(…)` -/
+def withParamBind (b : Option BindDict) (upd : List (Str × BVal)) : Option BindDict :=
+  if upd.isEmpty then b else some (dictUpdate (b.getD []) upd)
+
 /-- `MultipleChoiceQuestion.build_xml` (question.py 369-370) rejects a select whose bind type was
     overridden to anything but `string` / `odk:rank` -/
 def badSelectType : Option BindDict → Bool
@@ -340,7 +443,7 @@ def badSelectType : Option BindDict → Bool
 
 def selectTags : List String := ["select", "select1", "odk:rank"]
 
-def classifyNamed (lists : List Str) (r : PRow) (t name : Str) : RK :=
+def classifyNamed (lists : List Str) (r : PRow) (ps : List (Str × Str)) (t name : Str) : RK :=
   if (match r.bind with | some b => (lookup "entities:saveto".toList b).isSome | none => false) then
     .unsupported "save_to"
   else
@@ -363,7 +466,8 @@ def classifyNamed (lists : List Str) (r : PRow) (t name : Str) : RK :=
   | none =>
   match Rows.matchSelect t with
   | some (sel, ln, other) =>
-    if sel = "select one external".toList then .unsupported "select_one_external"
+    if r.parameters.isSome then .unsupported "select with parameters"
+    else if sel = "select one external".toList then .unsupported "select_one_external"
     else if (splitOnChar '.' ln).length > 1 || isInfix "${".toList ln then .unsupported "select from file / repeat"
     else if !lists.contains ln then .unsupported "list not in choices"
     else if other && r.choiceFilter then .unsupported "or_other with choice_filter"
@@ -385,8 +489,13 @@ def classifyNamed (lists : List Str) (r : PRow) (t name : Str) : RK :=
   | some e =>
     if (match Rows.entryGet e "control" "tag" with | some tag => selectTags.contains tag | none => false) then
       .unsupported "select type without list"
-    else .qs [{ name, tt := typeBind t, bind := r.bind, trig := r.trigger,
-                visible := t ≠ "calculate".toList && r.hasLabel }]
+    else
+    match paramBind t ps with
+    | .error w => .unsupported w
+    | .ok upd =>
+      let tag := (Rows.entryGet e "control" "tag").getD ""
+      .qs [{ name, tt := typeBind t, bind := withParamBind r.bind upd, trig := r.trigger,
+             visible := t ≠ "calculate".toList && r.hasLabel && Rows.tagHasControl tag }]
 
 /-- one processed row (number `n`, header row = 1) through the row loop of `workbook_to_json` -/
 def classify (lists : List Str) (n : Nat) (r : PRow) : RK :=
@@ -397,8 +506,13 @@ def classify (lists : List Str) (n : Nat) (r : PRow) : RK :=
   | none => if r.name.isSome || r.hasLabel then .unsupported "row without type" else .skip
   | some t0 =>
     let t := dealiasType t0
+    let psO : Option (List (Str × Str)) := match r.parameters with
+      | some p => if isAscii p then parseParams p else none
+      | none => some []
+    match psO with
+    | none => .unsupported "parameters cell not of the form key=value"
+    | some ps =>
     if t = "audit".toList then .unsupported "audit"
-    else if r.parameters.isSome then .unsupported "parameters"
     else if t = "calculate".toList &&
         !(match r.bind with | some b => (lookup "calculate".toList b).isSome | none => false) then
       .unsupported "calculate without calculation"
@@ -412,8 +526,8 @@ def classify (lists : List Str) (n : Nat) (r : PRow) : RK :=
        | _ => .unsupported "control type")
     | none =>
     match Rows.nameOrErr [] t n, r.name with
-    | _, some nm => if Rows.isXmlTag nm then classifyNamed lists r t nm else .unsupported "invalid name"
-    | .ok gen, none => classifyNamed lists r t gen
+    | _, some nm => if Rows.isXmlTag nm then classifyNamed lists r ps t nm else .unsupported "invalid name"
+    | .ok gen, none => classifyNamed lists r ps t gen
     | .error _, none => .unsupported "no name"
 
 /-- a positioned element -/
@@ -531,9 +645,6 @@ def subst (root : Str) (tops : List Str) : Option Str → Str → Option Str
 
 def calcKey : Str := "calculate".toList
 
-/-- kwargs that `utils.node` never turns into attributes -/
-def blockedAttrs : List Str := ["tag".toList, "toParseString".toList]
-
 /-- attribute list of the bind (after `nodeset`) -/
 def attrsOf (root : Str) (tops : List Str) (path : Str) (trigger : Bool) : BindDict → Option (List (Str × Str))
   | [] => some []
@@ -545,9 +656,7 @@ def attrsOf (root : Str) (tops : List Str) (path : Str) (trigger : Bool) : BindD
     | some s =>
       match subst root tops none s with
       | none => none
-      | some s' =>
-        if blockedAttrs.contains k then attrsOf root tops path trigger rest
-        else (attrsOf root tops path trigger rest).map ((k, s') :: ·)
+      | some s' => (attrsOf root tops path trigger rest).map ((k, s') :: ·)
 
 structure Bind where
   path : List Str
@@ -559,7 +668,7 @@ def xmlBind (root : Str) (tops : List Str) (e : Elem) : Option (Option Bind) :=
   match elemBind e.q with
   | none => some none
   | some b =>
-    if (lookup "nodeset".toList b).isSome then none      -- TypeError: duplicate keyword argument
+    if (lookup "nodeset".toList b).isSome then none      -- rejected: 'nodeset' is set by pyxform
     else (attrsOf root tops (Form.xpathStr e.path) e.q.trigger b).map fun a => some { path := e.path, attrs := a }
 
 def renderAll (root : Str) (tops : List Str) : List Elem → Option (List Bind)
@@ -601,6 +710,29 @@ inductive Out where
   | unsupported (why : String)
 deriving Repr
 
+/-- characters XML allows (utils.INVALID_XML_CHAR_REGEX) -/
+def xmlChar (c : Char) : Bool :=
+  let n := c.toNat
+  n == 9 || n == 10 || n == 13 || (0x20 ≤ n && n ≤ 0xD7FF) || (0xE000 ≤ n && n ≤ 0xFFFD) || 0x10000 ≤ n
+
+def declaredPrefixes : List Str :=
+  Pyxv.Gen.nsmap.filterMap fun kv =>
+    match kv.1.toList with
+    | 'x' :: 'm' :: 'l' :: 'n' :: 's' :: ':' :: p => some p
+    | _ => none
+
+/-- `utils._validate_xml_name` for an attribute: an XML name whose prefix (if any) is declared on
+    `h:html` (prefixes `xml` / `xmlns` are left to `unsupported`) -/
+def attrNameOK (k : Str) : Bool :=
+  Rows.isXmlTag k &&
+  (match splitOnChar ':' k with
+   | [_] => true
+   | p :: _ => declaredPrefixes.contains p
+   | [] => false)
+
+/-- `utils.validate_xml_document` restricted to one bind element -/
+def bindValid (b : Bind) : Bool := b.attrs.all fun kv => attrNameOK kv.1 && kv.2.all xmlChar
+
 /-- classified rows ↦ the bind elements, in document order -/
 def bindsOfRows (root : Str) (ks : List RK) : Out :=
   let names := (ks.flatMap rkNames).map lowerAscii
@@ -612,7 +744,7 @@ def bindsOfRows (root : Str) (ks : List RK) : Out :=
   | some es =>
     match renderAll root (topNames 0 ks) (es ++ [instanceID root]) with
     | none => .unsupported "reference or value outside the fragment"
-    | some bs => .ok bs
+    | some bs => if bs.all bindValid then .ok bs else .unsupported "attribute name or character not allowed in XML"
 
 /-- survey header row + raw rows ↦ the bind elements, in document order -/
 def formBinds (root dl : Str) (lists : List Str) (headers : List Str) (rows : List (List (Str × Str))) : Out :=
